@@ -1711,6 +1711,81 @@ func main() {
 	}(),
 		"`session.recover` raises \"database entry point either missing or corrupted\" only inside `if jt, _ := s.stor.List(TypeJournal|TypeTable); !noMeta || len(jt) > 0`, with `noMeta = os.IsNotExist(err)` set from the error of `GetMeta` (the D12 repair)")
 
+	// ---- wp50: fileStorage.setMeta / GetMeta (Model/FSMeta.lean `codeCfg`, C04FS.code_is_modelled) -- BEGIN
+	{
+		const fsgo = "leveldb/storage/file_storage.go"
+		const ux = "leveldb/storage/file_storage_unix.go"
+		statIf := "_, err := os.Stat(currentPath); err == nil"
+		sm := funcText(fsgo, "fileStorage.setMeta")
+		o.boolean("fsSetMetaEqualShortcut",
+			ifBodySeq(fsgo, "fileStorage.setMeta", statIf, []string{
+				"b, err := ioutil.ReadFile(currentPath)", "if err != nil {…", "if string(b) == content {…",
+				"if err := writeFileSynced(currentPath+\".bak\", b, 0644); err != nil {…"}) &&
+				ifBodyHas(fsgo, "fileStorage.setMeta", "string(b) == content", "return nil") &&
+				strings.Count(sm, "string(b) == content") == 1 &&
+				topStmtSeq(fsgo, "fileStorage.setMeta", []string{"content := fsGenName(fd) + \"\\n\"", "currentPath := filepath.Join(fs.path, \"CURRENT\")"}),
+			"`setMeta`: inside `if _, err := os.Stat(currentPath); err == nil`, after `ReadFile(currentPath)` and its error return and before the backup, `if string(b) == content { return nil }` with `content := fsGenName(fd) + \"\\n\"`")
+		o.boolean("fsSetMetaBackupFirst",
+			topStmtSeq(fsgo, "fileStorage.setMeta", []string{
+				"if " + statIf + " {…", "path := fmt.Sprintf(\"%s.%d\", filepath.Join(fs.path, \"CURRENT\"), fd.Num)",
+				"if err := writeFileSynced(path, []byte(content), 0644); err != nil {…"}) &&
+				ifBodyHas(fsgo, "fileStorage.setMeta", "writeFileSynced(currentPath+\".bak\", b, 0644); err != nil", "return err") &&
+				strings.Count(sm, "writeFileSynced(") == 2 &&
+				strings.Contains(sm, "} else if !os.IsNotExist(err) {\n\t\treturn err\n\t}"),
+			"`setMeta`: the `Stat(CURRENT)` block (which writes `CURRENT.bak` with `writeFileSynced` and returns its error) stands before the creation of `CURRENT.<num>`; a `Stat` error other than not-exist is returned")
+		wf := funcText(fsgo, "writeFileSynced")
+		o.boolean("fsSetMetaSyncedBeforeRename",
+			topStmtSeq(fsgo, "fileStorage.setMeta", []string{
+				"if err := writeFileSynced(path, []byte(content), 0644); err != nil {…", "if err := rename(path, currentPath); err != nil {…"}) &&
+				ifBodyHas(fsgo, "fileStorage.setMeta", "writeFileSynced(path, []byte(content), 0644); err != nil", "return err") &&
+				ifBodyHas(fsgo, "fileStorage.setMeta", "rename(path, currentPath); err != nil", "return err") &&
+				strings.Count(sm, "rename(") == 1 &&
+				topStmtSeq(fsgo, "writeFileSynced", []string{
+					"f, err := os.OpenFile(filename, os.O_WRONLY|os.O_CREATE|os.O_TRUNC, perm)", "if err != nil {…",
+					"n, err := f.Write(data)", "if err == nil && n < len(data) {…", "if err1 := f.Sync(); err == nil {…",
+					"if err1 := f.Close(); err == nil {…", "return err"}) &&
+				strings.Count(wf, "f.Sync()") == 1 && strings.Count(wf, "f.Write(") == 1 &&
+				strings.Contains(funcText(ux, "rename"), "return os.Rename(oldpath, newpath)"),
+			"`setMeta`: `writeFileSynced(CURRENT.<num>)` (OpenFile O_WRONLY|O_CREATE|O_TRUNC, Write, Sync, Close, first error wins) with its error return stands before the only `rename(path, currentPath)` (= `os.Rename`), whose error is returned")
+		o.boolean("fsSetMetaSyncDirLast",
+			topStmtSeq(fsgo, "fileStorage.setMeta", []string{
+				"if err := rename(path, currentPath); err != nil {…", "if err := syncDir(fs.path); err != nil {…", "return nil"}) &&
+				ifBodyHas(fsgo, "fileStorage.setMeta", "syncDir(fs.path); err != nil", "return err") &&
+				strings.Count(sm, "syncDir(") == 1 &&
+				topStmtSeq(ux, "syncDir", []string{"f, err := os.Open(name)", "if err != nil {…", "defer f.Close()",
+					"if err := f.Sync(); err != nil && !isErrInvalid(err) {…", "return nil"}),
+			"`setMeta`: `syncDir(fs.path)` (open the directory, `f.Sync()`) stands after the `rename` and before the final `return nil`; its error is returned")
+		gm := funcText(fsgo, "fileStorage.GetMeta")
+		o.boolean("fsGetMetaPendGuard",
+			ifBodyHas(fsgo, "fileStorage.GetMeta", "pendCur != nil && (curCur == nil || pendCur.fd.Num > curCur.fd.Num)", "curCur = pendCur") &&
+				strings.Count(gm, "curCur = pendCur") == 1,
+			"`GetMeta`: `if pendCur != nil && (curCur == nil || pendCur.fd.Num > curCur.fd.Num) { curCur = pendCur }` is the only place a pending file is preferred")
+		o.boolean("fsGetMetaOrder",
+			topStmtSeq(fsgo, "fileStorage.GetMeta", []string{
+				"names, err := dir.Readdirnames(0)", "tryCurrent := func(name string) (*currentFile, error) {…",
+				"tryCurrents := func(names []string) (*currentFile, error) {…", "for _, name := range names {…",
+				"if len(nums) > 0 {…", "curCur, curErr := tryCurrents([]string{\"CURRENT\", \"CURRENT.bak\"})",
+				"if curErr != nil && curErr != os.ErrNotExist && !isCorrupted(curErr) {…",
+				"if pendCur != nil && (curCur == nil || pendCur.fd.Num > curCur.fd.Num) {…", "if curCur != nil {…",
+				"if isCorrupted(pendErr) {…", "return FileDesc{}, curErr"}) &&
+				ifBodySeq(fsgo, "fileStorage.GetMeta", "len(nums) > 0", []string{
+					"sort.Sort(sort.Reverse(int64Slice(nums)))", "pendNames = make([]string, len(nums))", "for i, num := range nums {…",
+					"pendCur, pendErr = tryCurrents(pendNames)", "if pendErr != nil && pendErr != os.ErrNotExist && !isCorrupted(pendErr) {…"}) &&
+				ifBodyHas(fsgo, "fileStorage.GetMeta", "isCorrupted(pendErr)", "return FileDesc{}, pendErr") &&
+				strings.Contains(gm, "strings.HasPrefix(name, \"CURRENT.\") && name != \"CURRENT.bak\"") &&
+				strings.Contains(gm, "if len(b) < 1 || b[len(b)-1] != '\\n' || !fsParseNamePtr(") &&
+				strings.Contains(gm, "os.Stat(filepath.Join(fs.path, fsGenName(fd)))"),
+			"`GetMeta`: pending files (`CURRENT.<int>`, descending) are tried first, then `[CURRENT, CURRENT.bak]`; a file is skipped when it is missing, corrupted (empty, no final newline, `fsParseName` fails) or its target is missing; at the end a corruption among the pending files takes precedence over the error of the second group")
+		o.boolean("fsGetMetaRepair",
+			ifBodySeq(fsgo, "fileStorage.GetMeta", "curCur != nil", []string{
+				"if !fs.readOnly && (curCur.name != \"CURRENT\" || len(pendNames) != 0) {…", "return curCur.fd, nil"}) &&
+				ifBodySeq(fsgo, "fileStorage.GetMeta", "!fs.readOnly && (curCur.name != \"CURRENT\" || len(pendNames) != 0)", []string{
+					"if err := fs.setMeta(curCur.fd); err == nil {…"}) &&
+				ifBodySeq(fsgo, "fileStorage.GetMeta", "err := fs.setMeta(curCur.fd); err == nil", []string{"for _, name := range pendNames {…"}) &&
+				strings.Count(gm, "os.Remove(") == 1 && strings.Count(gm, "fs.setMeta(") == 1,
+			"`GetMeta`: unless read-only, when the answer does not come from `CURRENT` or pending files exist, `setMeta(curCur.fd)` is run and, only if it returned nil, every pending file is removed (errors logged); the answer is returned regardless")
+	}
+	// ---- wp50 -- END
 	o.b.WriteString("\nend GoLevel.Gen\n")
 
 	if leanOut != "" {
